@@ -1442,7 +1442,7 @@ func calledOnlyFrom(w *World, fn, only *ssa.Function) bool {
 		return false
 	}
 	n := 0
-	for g := range allModuleFuncs(w, w.SSA()) {
+	for _, g := range sortedModuleFuncs(w, w.SSA()) {
 		bad := false
 		allInstrs(g, func(in ssa.Instruction) {
 			if c, ok := in.(ssa.CallInstruction); ok && c.Common().StaticCallee() == fn {
